@@ -13,6 +13,7 @@ import facts as F
 import graph as G
 import layout as L
 import mirutil as MU
+import absint
 import sx
 from common import Reporter
 
@@ -128,6 +129,22 @@ def run(tier):
         else:
             ok = not app and len(errs) >= 1
             rep.ob("C06.elem|%s|string" % dd, ok, "a string in %s is an error" % DIRECTIVE[dd] if ok else "a string operand is accepted by %s" % DIRECTIVE[dd])
+    # ---- 2b. the length the padding and the addresses are computed from is the number of bytes emitted
+    fn = "directive::Operand::len"
+    if fn in P.body:
+        Ml = absint.Machine(P, max_depth=3)
+        got = {}
+        opv = L.variant_names(P, "directive::Operand")
+        for p in Ml.explore(fn, Ml.arg_unknowns(fn)):
+            v = L.dom1(p.state, "self*#d")
+            if v is not None and p.ret[0] == 'int':
+                got[opv[v]] = sx.show(p.ret[1])
+        rep.ob("C06.len|expr", got.get("E") == "1", "an expression operand counts as one element" if got.get("E") == "1" else "Operand::len of an expression is %s" % got.get("E"))
+        oks_ = got.get("S") == "self*:S.0#len"
+        rep.ob("C06.len|string", oks_, "a string operand counts as its number of bytes, which is what .db emits for it (odd/even padding and the next address follow the bytes)" if oks_ else
+               "Operand::len of a string is %s, not the number of bytes .db emits for it: padding and the following addresses disagree with the emitted bytes for strings where the two differ (non-ASCII text)" % got.get("S"))
+    else:
+        rep.unprovable("C06.len|anchor", "Operand::len not found")
     # ---- 3. pass 1 segment rules and padding
     rows1, paths1, M1 = L.pass1_rows(P)
     rep.count("pass-1 item paths", len(rows1))
